@@ -16,8 +16,27 @@ import json
 from typing import List
 
 
+def _escape_text(content) -> str:
+    """Escape a text so that it cannot be confused with anything else in a key.
+
+    The separator and the escape character are escaped; a leading `{` is escaped
+    as well, because only JSON items (context updates and events) start with it.
+    """
+    text = content if isinstance(content, str) else json.dumps(content)
+    text = text.replace("\\", "\\\\").replace(":", "\\:")
+    if text.startswith("{"):
+        text = "\\" + text
+    return text
+
+
 def get_history_cache_key(messages: List[dict]) -> str:
     """Compute the cache key for a sequence of messages.
+
+    The key is unique for a sequence of messages, i.e., two different sequences
+    never share a key: the texts are escaped, and a user/assistant message which
+    is not at its usual place in the user/assistant alternation is marked with
+    its role. For the usual sequences (alternating user/assistant messages whose
+    texts don't contain the separator) the key is simply the texts joined by ":".
 
     Args:
         messages: The list of messages.
@@ -30,15 +49,25 @@ def get_history_cache_key(messages: List[dict]) -> str:
 
     key_items = []
 
+    # The role we expect for the next user/assistant message.
+    expected_role = "user"
+
     for msg in messages:
-        if msg["role"] == "user":
-            key_items.append(msg["content"])
-        elif msg["role"] == "assistant":
-            key_items.append(msg["content"])
-        elif msg["role"] == "context":
-            key_items.append(json.dumps(msg["content"]))
-        elif msg["role"] == "event":
-            key_items.append(json.dumps(msg["event"]))
+        role = msg["role"]
+        if role == "user" or role == "assistant":
+            item = _escape_text(msg["content"])
+            if role != expected_role:
+                # An escaped text never starts with a backslash followed by a letter.
+                item = "\\" + role[0] + item
+            key_items.append(item)
+            expected_role = "assistant" if role == "user" else "user"
+        elif role == "context":
+            item = json.dumps(msg["content"])
+            if not item.startswith("{"):
+                item = "\\c" + item
+            key_items.append(item)
+        elif role == "event":
+            key_items.append("\\e" + json.dumps(msg["event"]))
 
     history_cache_key = ":".join(key_items)
 
